@@ -16,7 +16,7 @@ Qed.
 
 Lemma imgs_app {F} (a b : list (rd F)) : imgs (a ++ b) = imgs a ++ imgs b.
 Proof.
-  induction a as [|[e|attrs f m] r IH]; cbn [app imgs]; [reflexivity | exact IH |].
+  induction a as [|[e|attrs f m|attrs e] r IH]; cbn [app imgs]; [reflexivity | exact IH | | exact IH].
   destruct (is_image attrs); [cbn [app]; f_equal|]; exact IH.
 Qed.
 
@@ -153,7 +153,7 @@ Section Inv.
     state_inv w0 p st -> step warn st r = Ok st' -> state_inv w0 (p ++ [r]) st'.
   Proof.
     intros [Hi Hw] Hs. unfold state_inv. rewrite imgs_app, n_skipped_app.
-    destruct r as [e|attrs f m]; cbn [Model.step] in Hs.
+    destruct r as [e|attrs f m|attrs e]; cbn [Model.step] in Hs.
     - destruct warn; [|discriminate]. injection Hs as <-. cbn [fst snd imgs]. rewrite app_nil_r.
       split; [exact Hi|]. rewrite Hw. change (@n_skipped F [Fault e]) with 1%nat. lia.
     - assert (Hn : @n_skipped F [Data attrs f m] = if is_image attrs then 0%nat else 1%nat)
@@ -162,6 +162,10 @@ Section Inv.
       + destruct (add_result atol (EK m) (CK m) f (fst st)) as [rs'|e] eqn:E; cbn [bind] in Hs; [|discriminate].
         injection Hs as <-. cbn [fst snd length]. split; [eapply add_result_inv; eassumption | lia].
       + injection Hs as <-. cbn [fst snd length]. rewrite app_nil_r. split; [exact Hi | lia].
+    - assert (Hs' : st' = (fst st, S (snd st))).
+      { destruct (negb (is_image attrs)); [congruence|]. destruct warn; [congruence | discriminate]. }
+      subst st'. cbn [fst snd imgs]. rewrite app_nil_r.
+      split; [exact Hi|]. rewrite Hw. change (@n_skipped F [ExtractFault attrs e]) with 1%nat. lia.
   Qed.
 
   Lemma inv_nil : inv [] (@nil (entry F)).
